@@ -98,12 +98,26 @@ static void entry_points(const Case& c, YR_RULES* rules, Stats& st, std::set<std
     J rp = J::obj(); rp.set("engine", "sim_blocks"); rp.set("kind", "entry"); rp.set("entry", ep); rp.set("spec", spec_json(c.spec)); rp.set("buffer", buf_json(c.buf));
     emit_violation("C13", "entry-point-disagrees", sig, std::string(ep) + " vs yr_rules_scan_mem on " + c.bufname + " (" + std::to_string(c.buf.size()) + " bytes): rc " + yr_error_name(o.rc) + " vs " + yr_error_name(ref.rc) + "; " + first_diff(ref.trace, o.trace), rp);
   };
-  auto want = [&](const char* ep) { return only.empty() || only == ep; };
+  auto want = [&](const char* ep) { return only.empty() || only == ep || only.rfind(std::string(ep) + "#", 0) == 0; };
   if (want("scanner_scan_mem")) { Outcome o; Recorder rec; Exact e(c.buf); YR_SCANNER* sc; yr_scanner_create(rules, &sc); yr_scanner_set_callback(sc, recorder_callback, &rec); o.rc = yr_scanner_scan_mem(sc, e.p, e.n); o.trace = rec.text; yr_scanner_destroy(sc); check("scanner_scan_mem", o); }
   if (want("rules_scan_file")) { Outcome o; Recorder rec; o.rc = yr_rules_scan_file(rules, path.c_str(), 0, recorder_callback, &rec, 0); o.trace = rec.text; check("rules_scan_file", o); }
   if (want("scanner_scan_file")) { Outcome o; Recorder rec; YR_SCANNER* sc; yr_scanner_create(rules, &sc); yr_scanner_set_callback(sc, recorder_callback, &rec); o.rc = yr_scanner_scan_file(sc, path.c_str()); o.trace = rec.text; yr_scanner_destroy(sc); check("scanner_scan_file", o); }
-  if (want("rules_scan_fd")) { Outcome o; Recorder rec; int fd = open(path.c_str(), O_RDONLY); o.rc = yr_rules_scan_fd(rules, fd, 0, recorder_callback, &rec, 0); close(fd); o.trace = rec.text; check("rules_scan_fd", o); }
-  if (want("scanner_scan_fd")) { Outcome o; Recorder rec; int fd = open(path.c_str(), O_RDONLY); YR_SCANNER* sc; yr_scanner_create(rules, &sc); yr_scanner_set_callback(sc, recorder_callback, &rec); o.rc = yr_scanner_scan_fd(sc, fd); close(fd); o.trace = rec.text; yr_scanner_destroy(sc); check("scanner_scan_fd", o); }
+  // descriptor entry points: the descriptor stays the caller's (still open afterwards, nothing closed that yara did not
+  // open) and can be scanned again with the same result
+  auto fd_case = [&](const char* ep, bool scanner_api) {
+    int fd = open(path.c_str(), O_RDONLY); int fc0 = g_fs.foreign_closes; g_fs.refuse_foreign_close = true;
+    Outcome o, o2; YR_SCANNER* sc = NULL; if (scanner_api) yr_scanner_create(rules, &sc);
+    for (int round = 0; round < 2; round++) { Recorder rec; Outcome& x = round ? o2 : o; if (sc) { yr_scanner_set_callback(sc, recorder_callback, &rec); x.rc = yr_scanner_scan_fd(sc, fd); } else x.rc = yr_rules_scan_fd(rules, fd, 0, recorder_callback, &rec, 0); x.trace = rec.text; }
+    if (sc) yr_scanner_destroy(sc);
+    g_fs.refuse_foreign_close = false;
+    bool still_open = fcntl(fd, F_GETFD) != -1; bool closed_foreign = g_fs.foreign_closes != fc0;
+    close(fd);
+    check(ep, o);
+    if (!still_open || closed_foreign) { Outcome bad = o; bad.rc = -3; bad.trace = "descriptor closed by the library"; check((std::string(ep) + "#fd-ownership").c_str(), bad); }
+    else check((std::string(ep) + "#second-scan-of-same-fd").c_str(), o2);
+  };
+  if (want("rules_scan_fd")) fd_case("rules_scan_fd", false);
+  if (want("scanner_scan_fd")) fd_case("scanner_scan_fd", true);
   if (want("rules_scan_mem_blocks")) check("rules_scan_mem_blocks", scan_blocks(rules, c.buf, {{0, c.buf.size()}}, {}, {}, {}, true));
   if (want("scanner_scan_mem_blocks")) check("scanner_scan_mem_blocks", scan_blocks(rules, c.buf, {{0, c.buf.size()}}, {}, {}, {}, false));
   // ---- file syscall faults: documented error, no callback, ledgers balanced
